@@ -98,13 +98,24 @@ func TomlKeyToEvCode(key string, lookupTable map[string]evdev.EvCode) (evdev.EvC
 
 }
 
+// decodeTOML runs the decoder and reports a decoder panic as an error: go-toml v2.0.3 panics on some malformed
+// documents (e.g. "[[mapping.0]]"), and configurations are re-read while the application runs.
+func decodeTOML(d *toml.Decoder, v interface{}) (err error) {
+	defer func() {
+		if r := recover(); r != nil {
+			err = fmt.Errorf("toml decoder failure: %v", r)
+		}
+	}()
+	return d.Decode(v)
+}
+
 func ParseData(data []byte) (Config, error) {
 	cfg := TOMLDeviceConfig{}
 
 	d := toml.NewDecoder(bytes.NewReader(data))
 	d.DisallowUnknownFields()
 
-	err := d.Decode(&cfg)
+	err := decodeTOML(d, &cfg)
 	if err != nil {
 		return Config{}, fmt.Errorf("parsing failed: %w", err)
 	}
